@@ -117,12 +117,15 @@ DECREASING = ("inv-multiexp", "multiexp")
 
 
 @functools.lru_cache(maxsize=None)
-def problem(order, cname, sname):
+def problem(order, cname, sname, x0=0.0):
     """(coeff list for the library, y-derivative callables [y, y', ...], f callable)."""
     import sympy as sp
 
     x = sp.symbols("x")
-    y = {"exp": sp.exp(-x / 2), "sinpoly": sp.sin(x) + x**2 / 5, "lorentz": 1 / (1 + x**2)}[sname]
+    t = x - sp.Float(x0)
+    # "polyint": whole-number initial data y(x0)=1, y'(x0)=-1, y''(x0)=2 (passed to the solver as ints)
+    y = {"exp": sp.exp(-x / 2), "sinpoly": sp.sin(x) + x**2 / 5, "lorentz": 1 / (1 + x**2),
+         "polyint": 1 - t + t**2 + sp.sin(t) ** 4 / 3}[sname]
     if cname == "const":
         a = [sp.Float(1.0), sp.Float(-0.5), sp.Float(2.0), sp.Float(0.7)][: order + 1]
         a[order] = sp.Float([2.0, 1.5, 0.8][order - 1])
@@ -154,8 +157,9 @@ def _solve_case(arg):
     res = WorkerResult(section=f"{solver}:order{order}")
     case = {"order": order, "coeffs": cname, "solution": sname, "transform": tname, "solver": solver, "variant": variant}
     make, (x0, x1) = transforms()[tname]
-    x0 = x0 + lattice.jitter(seed, "x0" + tname, 0.0, 0.03)
-    coeffs, dy, fx = problem(order, cname, sname)
+    if sname != "polyint":
+        x0 = x0 + lattice.jitter(seed, "x0" + tname, 0.0, 0.03)
+    coeffs, dy, fx = problem(order, cname, sname, x0 if sname == "polyint" else 0.0)
     xs = np.linspace(x0, x1, 9)
     exact = np.array([d(xs) for d in dy[:order]])          # rows y, y', ... (w.r.t. x)
     tag = f"{solver}:order{order}"
@@ -166,11 +170,22 @@ def _solve_case(arg):
             try:
                 tf = make()
                 if solver == "ivp":
-                    method, no_der = variant
+                    method, no_der = variant[:2]
+                    y0form = variant[2] if len(variant) > 2 else "float-list"
                     y0 = [float(d(np.array([x0]))[0]) for d in dy[:order]]
+                    if y0form != "float-list":
+                        assert all(abs(v - round(v)) < 1e-12 for v in y0)
+                        y0 = [int(round(v)) for v in y0]
+                        if y0form == "int-array":
+                            y0 = np.array(y0)
+                        elif y0form == "float-array":
+                            y0 = np.array(y0, dtype=float)
+                    y0_snapshot = repr(y0)
                     sol = solve_ode_ivp((x0, x1), fx, coeffs, y0, transform=tf, method=method, no_derivatives=no_der,
                                         rtol=RTOL, atol=ATOL)
                     tol = 200 * (ATOL + RTOL * np.abs(exact)) * (50 if method in ("RK45", "BDF", "Radau", "LSODA") else 1)
+                    if repr(y0) != y0_snapshot:
+                        res.violation("ivp:initial-data-modified", f"{case}: the caller's y0 was modified: {y0_snapshot} -> {y0!r}", case)
                 else:
                     bc_kind, guess, no_der = variant
                     mesh = np.linspace(x0, x1, 25)
@@ -289,6 +304,10 @@ def jobs_for(ctx):
                     if no_der and not (method == "DOP853" and (ctx.thorough or base)):
                         continue
                     out.append((order, cname, sname, tname, "ivp", (method, no_der), ctx.seed))
+            # whole-number initial data passed as Python ints / integer ndarray / float ndarray
+            if sname == "exp" and cname in ("const", "callable") and (ctx.thorough or tname in ("none", "inv-becke", "inv-knowles-k3", "becke", "handy-m2")):
+                for form in ("int-list", "int-array", "float-array"):
+                    out.append((order, cname, "polyint", tname, "ivp", ("DOP853", False, form), ctx.seed))
             # BVP
             for bc in ("values", "lower-derivative", "upper"):
                 if order == 1 and bc == "lower-derivative":
